@@ -6,7 +6,7 @@
 set -u
 cd "$(dirname "$0")/.." || exit 2
 V=$PWD; dir=$1; shift
-R=/tmp/sv/repo-seed; S=/tmp/sv/verif-seed
+R=/tmp/sv/repo-seed${SCR:-}; S=/tmp/sv/verif-seed${SCR:-}
 [ -f "$dir/patch.diff" ] || { echo "no patch in $dir"; exit 2; }
 mkdir -p /tmp/sv
 [ -d $R ] || git -C /repo worktree add -q --detach $R HEAD || exit 2
